@@ -98,13 +98,31 @@ WRAPPERS = {
 }
 
 
+def _alpha(stmts, params):
+    """ast dumps of stmts with the locally assigned names renamed canonically (v0, v1, ...) in order of
+    first assignment - alpha-equivalence of locals; parameters and globals are left alone"""
+    import copy
+    stmts = copy.deepcopy(stmts)
+    names = {}
+    for s in stmts:
+        for n in ast.walk(s):
+            if isinstance(n, ast.Name) and isinstance(n.ctx, ast.Store) and n.id not in params and n.id not in names:
+                names[n.id] = "v%d" % len(names)
+    for s in stmts:
+        for n in ast.walk(s):
+            if isinstance(n, ast.Name) and n.id in names:
+                n.id = names[n.id]
+    return [ast.dump(s) for s in stmts]
+
+
 def check_wrappers(tree):
     for name, (sig, body) in WRAPPERS.items():
         fn = _find(tree, name)
         want = ast.parse("def %s(%s):\n%s" % (name, sig, "\n".join("    " + l for l in body.splitlines()))).body[0]
         if ast.dump(fn.args) != ast.dump(want.args) or fn.decorator_list:
             _fail(fn, "signature of %s changed" % name)
-        if [ast.dump(s) for s in _body(fn)] != [ast.dump(s) for s in want.body]:
+        params = {a.arg for a in fn.args.args} | ({fn.args.kwarg.arg} if fn.args.kwarg else set())
+        if _alpha(_body(fn), params) != _alpha(want.body, params):
             _fail(fn, "%s is no longer the expected thin wrapper" % name)
     return sorted(WRAPPERS)
 
@@ -139,9 +157,10 @@ def selftest(repo):
         ("    return bucketized.get(True, []), bucketized.get(False, [])", "    return bucketized.get(False, []), bucketized.get(True, [])"),
         ("        return list(itertools.islice(chunk_iter, count))", "        return list(itertools.islice(chunk_iter, count + 1))"),
     ]
-    seen = 0
+    seen = skipped = 0
     for old, new in perturbations:
         if src.count(old) != 1:
+            skipped += 1        # this spot of the source has been rewritten: perturbation not applicable
             continue
         with tempfile.TemporaryDirectory() as d:
             os.makedirs(os.path.join(d, "boltons"))
@@ -153,7 +172,7 @@ def selftest(repo):
                 continue
             if out.split("\n", 1)[1] != base.split("\n", 1)[1]:
                 seen += 1
-    return seen, len(perturbations)
+    return seen, len(perturbations) - skipped
 
 
 if __name__ == "__main__":
